@@ -175,6 +175,11 @@ func execute(input string) string {
 	if strings.HasPrefix(o, "CRASH ") {
 		o = execute1(input)
 	}
+	if strings.Contains(o, "res=err:context_deadline_exceeded") && stuckSeen.Load() < 6 {
+		// the harness' own time limit (15 s) cut the run: on a badly overloaded machine (load average 200+) a controlled
+		// run can starve. Run it once more with a longer limit; a pool that really never ends is cut again and reported
+		o = execute1(input + " __tmo=30000")
+	}
 	if o == "HANG" || strings.HasPrefix(o, "CRASH ") || strings.Contains(o, "deadline_exceeded") {
 		stuckSeen.Add(1)
 	}
